@@ -92,7 +92,7 @@ def run(prop, tier, seed, spec, log):
     res["samples"] = [{"kani_harness": n, "status": ("FAILED" if n in failed else "SUCCESSFUL")} for n in checked[:6]]
     res["summary"] = {"tool": "Kani 0.68.0 / CBMC 6.11.0 (cadical)", "harnesses_run": checked, "verified": [n for n in checked if n not in failed],
                       "failed": failed, "expected_to_fail": [SELFTEST], "rejecting_harnesses_with_unreachable_return": covers_unreachable,
-                      "bounds": "concrete shapes (2x3, 3x2, 1x3 matrices; 4x4 tridiagonal/banded; 3x3 sparse; 2x3 and 3-node meshes), index arguments over ALL of usize, vector/polynomial sizes symbolic in 0..6; unwinding assertions on",
+                      "bounds": "concrete shapes (2x3, 3x2, 1x3, 2x2 matrices; 3..4-row tridiagonal/banded; 3x3 and 2x3 sparse; 2x3 and 3-node meshes), index arguments over ALL of usize, vector/polynomial operand sizes symbolic in 0..6 (element-wise operators, dot, slices, Matrix::multiply/set_row/set_col/solve_*, Banded and Tridiagonal products/solves/constructors, Sparse products, mesh node writes); unwinding assertions on",
                       "wall_s": round(time.time() - t0, 1)}
     return res
 
